@@ -385,9 +385,59 @@ pub fn run(ctx: &Ctx) -> (&'static str, &'static str) {
             Ok(if a.c(1) == b.c(1) { "tie on c1" } else { "c1 decides" })
         },
     );
+    // ordering on pairs whose deciding coefficients agree in all higher limbs and differ, in limb l, by a prescribed amount:
+    // small differences, differences of exactly 2^63, just below 2^64, and wrap-around patterns - in c0 with equal c1, in c1,
+    // and for the embedded base field (c1 = 0); every comparison form (cmp, partial_cmp, <, >, <=, >=, max, min)
+    {
+        let diffs: [(u64, u64); 8] = [(0, 1), (0, 1 << 63), (1, (1 << 63) + 1), (5, (1 << 63) + 9), (0x10, 0xf000_0000_0000_0000), (0, u64::MAX), (1 << 62, (1 << 63) + (1 << 62)), (3, 1 << 32)];
+        let mut pairs: Vec<(Q2, Q2, &'static str)> = vec![];
+        let base_hi = BigUint::from(7u32); // common higher limbs (small, so that every value stays below q)
+        for l in 0..6usize {
+            for &(x, y) in diffs.iter() {
+                // limb 5 of a canonical value is below 2^61: scale the prescribed limb values down there
+                let (x, y) = if l == 5 { (x >> 4, y >> 4) } else { (x, y) };
+                let hi = if l < 5 { &base_hi << (64 * (l + 1)) } else { BigUint::from(0u32) };
+                let lo = BigUint::from(0x1234u32) % (BigUint::from(1u32) << (64 * l).max(1));
+                let a = &hi + (BigUint::from(x) << (64 * l)) + if l > 0 { lo.clone() } else { BigUint::from(0u32) };
+                let b = &hi + (BigUint::from(y) << (64 * l)) + if l > 0 { (&lo + 1u32) % (BigUint::from(1u32) << (64 * l)) } else { BigUint::from(0u32) };
+                if &a >= q() || &b >= q() {
+                    continue;
+                }
+                let (qa, qb) = (Q1::new(a), Q1::new(b));
+                let c = Q1::from_u64(9);
+                pairs.push((Q2::new(vec![qa.clone(), c.clone()]), Q2::new(vec![qb.clone(), c.clone()]), "c0 decides (equal c1)"));
+                pairs.push((Q2::new(vec![c.clone(), qa.clone()]), Q2::new(vec![c.clone(), qb.clone()]), "c1 decides"));
+                pairs.push((Q2::new(vec![qa.clone(), Q1::zero()]), Q2::new(vec![qb.clone(), Q1::zero()]), "embedded base field"));
+            }
+        }
+        ctx.sweep(
+            "Fq2.ord_limb_differences",
+            pairs.len() as u64,
+            |i| json!({"a": hex_q2(&pairs[i as usize].0), "b": hex_q2(&pairs[i as usize].1), "class": pairs[i as usize].2}),
+            |i| {
+                let (a, b, cls) = &pairs[i as usize];
+                for (x, y) in [(a, b), (b, a), (a, a)] {
+                    let want = x.c(1).int().cmp(y.c(1).int()).then(x.c(0).int().cmp(y.c(0).int()));
+                    let (fx, fy) = (fq2_of(x), fq2_of(y));
+                    let forms_ok = fx.cmp(&fy) == want
+                        && fx.partial_cmp(&fy) == Some(want)
+                        && (fx < fy) == (want == std::cmp::Ordering::Less)
+                        && (fx > fy) == (want == std::cmp::Ordering::Greater)
+                        && (fx <= fy) == (want != std::cmp::Ordering::Greater)
+                        && (fx >= fy) == (want != std::cmp::Ordering::Less)
+                        && std::cmp::max(fx, fy) == if want == std::cmp::Ordering::Greater { fx } else { fy }
+                        && std::cmp::min(fx, fy) == if want == std::cmp::Ordering::Greater { fy } else { fx };
+                    if !forms_ok {
+                        return Err(Fail::new(format!("Fq2 order differs from the lexicographic (c1,c0) order of canonical integers on a pair that differs in one limb only ({}): cmp gives {:?}, integers say {:?}", cls, fx.cmp(&fy), want)));
+                    }
+                }
+                Ok(*cls)
+            },
+        );
+    }
     ctx.assume("Euler criterion and Tonelli-Shanks on big integers as the oracle; 'some square root' is accepted (either sign)");
     (
         "exploration",
-        "Fq/Fr: the C08 boundary alphabet plus residues and non-residues found by the reference Euler criterion (>=64 each) and squares of alphabet members; Fq2: all pairs over an Fq alphabet containing 0, +-1, +-2, residues and non-residues (covers Fq-embedded with real / purely imaginary root, purely imaginary elements), plus >=48 norm-residues, norm-non-residues and members of the alpha=-1 branch found by reference computation; classes are computed by the model and the run fails as machinery if one is empty; ordering on all pairs of a sub-alphabet",
+        "Fq/Fr: the C08 boundary alphabet plus residues and non-residues found by the reference Euler criterion (>=64 each) and squares of alphabet members; Fq2: all pairs over an Fq alphabet containing 0, +-1, +-2, residues and non-residues (covers Fq-embedded with real / purely imaginary root, purely imaginary elements), plus >=48 norm-residues, norm-non-residues and members of the alpha=-1 branch found by reference computation; classes are computed by the model and the run fails as machinery if one is empty; ordering on all pairs of a sub-alphabet, and on pairs that agree in all higher limbs and differ in one limb by 1, 2^63, 2^64-1 and wrap-around patterns, through every comparison form",
     )
 }
